@@ -1,6 +1,7 @@
 package props
 
 import (
+	"sync"
 	"bytes"
 	"encoding/hex"
 	"encoding/json"
@@ -93,9 +94,21 @@ func implJSON(args [][]byte) string {
 		sb.WriteString("decode-error")
 		return sb.String()
 	}
-	sb.WriteString("ok " + DumpQueryDoc(&back, false))
+	fresh := DumpQueryDoc(&back, false)
+	sb.WriteString("ok " + fresh)
+	// decoding into a destination that held another document before gives the same document
+	used, _ := c19Used.Get().(*ast.QueryDocument)
+	if used == nil {
+		used = &ast.QueryDocument{}
+	}
+	if err := json.Unmarshal(bs, used); err != nil || DumpQueryDoc(used, false) != fresh {
+		sb.WriteString("!decoding-into-a-used-destination-differs")
+	}
+	c19Used.Put(used)
 	return sb.String()
 }
+
+var c19Used sync.Pool
 
 func runC19(c *core.Ctx) {
 	const thm = "C19_roundtrip (props/C19.v); model op json = Ops.dump_json_roundtrip"
